@@ -663,8 +663,35 @@ def sibling_diff():
     return out
 
 
+def respelled_docs():
+    """documents in which a keyword is written in another Unicode normal form (or followed by a combining mark): such a
+    line is free text / unexpected, never the keyword — "nothing that is not in the source appears in the AST" """
+    import unicodedata as ud
+    D = impl.dialects()
+    out = []
+    for name, spec in D.items():
+        f_kw, s_kw, g_kw = spec["feature"][0], spec["scenario"][0], [k for k in spec["given"] if k.strip() != "*"][0]
+        for role in ("scenario", "feature", "given", "background", "examples", "rule"):
+            for kw in spec[role]:
+                for form in ("NFD", "NFC"):
+                    alt = ud.normalize(form, kw)
+                    if alt == kw:
+                        continue
+                    if role == "given":
+                        out.append(f"# language: {name}\n{f_kw}: f\n  desc\n  {s_kw}: s\n    {g_kw}x\n    {alt}y\n")
+                    elif role == "feature":
+                        out.append(f"# language: {name}\n{alt}: f\n  {s_kw}: s\n    {g_kw}x\n")
+                    else:
+                        out.append(f"# language: {name}\n{f_kw}: f\n  free text\n  {alt}: respelled\n  {s_kw}: s\n    {g_kw}x\n")
+                    break
+        out.append(f"# language: {name}\n{f_kw}: f\n  text\n  {s_kw}\u0301: marked\n  {s_kw}: s\n    {g_kw}x\n")
+    return out
+
+
 def run_C03(ctx: Ctx) -> Result:
     docs = streams.corpus_docs() + streams.doc_mix(ctx.rng, ctx.n(2500, 25000), noisy=0.05, mutated=0.1)
+    rd = respelled_docs()
+    docs += rd if ctx.thorough else rd[:: 2]
     return streams.parse_stream(docs, proj_ast_text, modes=(False,), nontrivial=lambda i: "ok" in i)
 
 
@@ -784,6 +811,24 @@ def run_C05(ctx: Ctx) -> Result:
                 for pre, post in layouts[:3]:
                     cases.append(("StepLine", name, name, 0, None, pre + kw + "text" + post + "\n"))
                 cases.append(("FeatureLine", name, name, 0, None, kw + ": x\n"))
+    # other Unicode spellings of a keyword are not that keyword: NFD / NFC forms that differ from the listed one, a
+    # combining mark directly after the keyword, a fullwidth colon instead of ':'
+    import unicodedata as _ud
+    for name in D:
+        for role, kind in title_roles:
+            for kw in D[name][role]:
+                forms = {_ud.normalize("NFD", kw), _ud.normalize("NFC", kw)} - {kw}
+                for f_ in sorted(forms):
+                    cases.append((kind, name, name, 0, None, f_ + ": respelled\n"))
+                cases.append((kind, name, name, 0, None, kw + "\u0301: mark\n"))
+                cases.append((kind, name, name, 0, None, kw + "\uff1a fullwidth colon\n"))
+        for role in step_roles:
+            for kw in D[name][role]:
+                forms = {_ud.normalize("NFD", kw), _ud.normalize("NFC", kw)} - {kw}
+                for f_ in sorted(forms):
+                    cases.append(("StepLine", name, name, 0, None, f_ + "respelled\n"))
+                if kw.strip():
+                    cases.append(("StepLine", name, name, 0, None, kw.rstrip() + "\u3099" + kw[len(kw.rstrip()):] + "x\n"))
     # foreign keywords: keywords of another dialect under "en" and under a header-selected dialect
     names = list(D)
     for name in names:
@@ -1126,6 +1171,37 @@ def run_C14(ctx: Ctx) -> Result:
         res.note(case, not i.get("accepts", True))
         if "crash" not in i and not i["accepts"] and len(i["errors"]) <= 10 and i["errors"] != m["errors"]:
             res.fail("kinds", case, i["errors"], m["errors"], "unexpected-line positions differ from the table model (recovery)")
+    # direct oracle, no table in the loop: "after an unexpected line parsing carries on from the same position with the
+    # next line" — for a path (free of tag lines, which are read with look-ahead) to every state, every kind that is unexpected there and every one-line continuation, the
+    # run with the unexpected line reports that line plus exactly what the run without it reports (shifted by one)
+    try:
+        pre = state_prefixes()
+    except Exception:
+        pre = {}
+    n_rec = 0
+    for s_, p_ in sorted(pre.items()):
+        if K.index("TagLine") in p_:
+            continue          # a tag line is read with look-ahead: what follows it decides the state it leads to
+        base_ = impl.kinds_run([K[x] for x in p_])
+        if "crash" in base_ or any(e_ < len(p_) for e_ in base_.get("errors", [])):
+            continue          # the path itself must be error free (errors at the end of file aside)
+        for k in range(1, 14):
+            one = impl.kinds_run([K[x] for x in p_ + [k]])
+            if "crash" in one or len(p_) not in one.get("errors", []):
+                continue      # kind k is expected in this state
+            for q in range(1, 14):
+                with_ = impl.kinds_run([K[x] for x in p_ + [k, q]])
+                without = impl.kinds_run([K[x] for x in p_ + [q]])
+                n_rec += 1
+                if "crash" in with_ or "crash" in without or len(with_.get("errors", [])) > 10:
+                    continue
+                want = sorted([len(p_)] + [e_ + 1 if e_ >= len(p_) else e_ for e_ in without.get("errors", [])])
+                if sorted(with_.get("errors", [])) != want:
+                    res.fail("kinds", {"kinds": [K[x] for x in p_ + [k, q]], "state": s_}, with_.get("errors"), want,
+                             f"after the unexpected {K[k]} line in state {s_} the parser does not carry on from the same position: "
+                             f"the next line ({K[q]}) is treated differently than without the unexpected line")
+                    break
+    res.stats["recovery_pairs_checked"] = n_rec
     return res
 
 
@@ -1193,6 +1269,34 @@ def run_C15(ctx: Ctx) -> Result:
                 res.fail("history", {**case, "position": pos}, a, b,
                          f"document {pos} of the history parses differently than with fresh instances: {first_diff(a, b)}")
                 break
+    # compiling does not modify the AST it is given and is repeatable — also for hand-built ASTs (several backgrounds,
+    # any order of children) that the parser never returns
+    res.merge(streams.genast_stream(rng, ctx.n(500, 5000),
+                                    lambda o: {k_: o.get(k_) for k_ in ("mutated_input", "second_compile_differs")}, stream="history"))
+    # one Parser used with and without an explicit matcher, in any order (parse(src, m) must not change what parse(src) does)
+    from gherkin.token_matcher_markdown import GherkinInMarkdownTokenMatcher as _MD
+    en_doc, fr_doc = pool[0], "Fonctionnalité: f\n  Scénario: s\n    Soit x\n"
+    want_en = {x: fresh[(0, False)].get(x) for x in ("ok", "errors")}
+    for first in ("fr", "no", "md", "fr-rejected"):
+        p_ = impl.Parser(impl.RecordingBuilder(impl.id_gen(0)))
+        try:
+            if first == "md":
+                p_.parse("# Feature: m\n## Scenario: s\n* Given x\n", _MD("en"))
+            elif first == "fr-rejected":
+                p_.parse("nonsense\n", impl.TokenMatcher("fr"))
+            else:
+                p_.parse(fr_doc if first == "fr" else "Egenskap: f\n", impl.TokenMatcher(first))
+        except Exception:
+            pass
+        p_.ast_builder.id_generator = impl.id_gen(0)
+        try:
+            got = {"ok": p_.parse(en_doc)}
+        except Exception as e_:
+            got = {"crash": f"{type(e_).__name__}: {e_}"}
+        res.note({"mixed_call_styles": first}, True)
+        if got.get("ok") != want_en.get("ok"):
+            res.fail("history", {"source": en_doc, "note": f"Parser.parse(src) without a matcher, after parse(other, matcher={first}) on the same Parser"},
+                     got, want_en, "parse(src) without a matcher depends on the matcher passed to an earlier parse on the same Parser")
     # an exception raised for an earlier document must not change when the same Parser parses another one
     from gherkin.errors import CompositeParserException as _CPE, ParserException as _PE
     for stop_ in (False, True):
@@ -1581,7 +1685,7 @@ def run_C16(ctx: Ctx) -> Result:
             n_cm += 1
             if got != want:
                 res.fail("metamorphic", {"source": src, "stop": stop_, "transform": f"theorem:comment-line-after-{k_}-lines", "transformed": t}, got, want,
-                         f"C16_comment_line_text applies (after {k_} lines the model builds a comment and stays) but the implementation's outcome is not "
+                         f"C16_comment_line_text2 applies (after {k_} lines the model builds a comment and stays, or opens the description the next line continues) but the implementation's outcome is not "
                          f"the original with later lines moved down by one and exactly this comment added: {first_diff(got, want)}")
         if m_.get("indent") or m_.get("indent2"):
             t = "".join(ind)
@@ -1816,6 +1920,29 @@ def shape_errors(env):
 def run_C17(ctx: Ctx) -> Result:
     res = streams.events_stream(ctx.rng, ctx.n(500, 5000))
     rng = ctx.rng
+    # the three print options are read when a source is handled: replacing or mutating `options` on a live stream
+    # object takes effect for the next source
+    from gherkin.stream.gherkin_events import GherkinEvents as _GE
+    ev_src = {"source": {"uri": "u", "data": "Feature: f\n  Scenario: s\n    Given a\n", "mediaType": "text/x.cucumber.gherkin+plain"}}
+    combos = list(itertools.product([False, True], repeat=3))
+    for a_ in combos:
+        for b_ in combos:
+            if a_ == b_:
+                continue
+            for how in ("replace", "mutate"):
+                ge = _GE(_GE.Options(*a_))
+                kinds_a = [sorted(e.keys())[0] for e in ge.enum(ev_src)]
+                if how == "replace":
+                    ge.options = _GE.Options(*b_)
+                else:
+                    ge.options.print_source, ge.options.print_ast, ge.options.print_pickles = b_
+                kinds_b = [sorted(e.keys())[0] for e in ge.enum(ev_src)]
+                want_b = [sorted(e.keys())[0] for e in _GE(_GE.Options(*b_)).enum(ev_src)]
+                if kinds_b != want_b:
+                    res.fail("options", {"first_options": a_, "second_options": b_, "how": how}, kinds_b, want_b,
+                             "after its options were changed a stream object still yields the envelope kinds of its old options")
+                    break
+    res.note({"options_changed_on_live_stream": True}, True)
     # envelopes of FILES (non-ASCII text included) are the same under every interpreter mode / locale
     env_matrix(res, [d for d in streams.corpus_docs() if any(ord(c) > 127 for c in d)][: ctx.n(40, 1000)]
                + ["# language: ru\nФункция: ф\n  Сценарий: с\n    Дано а\n", "Feature: ascii\n  Scenario: s\n    Given a\n", "Feature: é\n  Scenario: 😀\n    Given | x\n      | ☃ |\n"])
@@ -2060,6 +2187,15 @@ def run_C19(ctx: Ctx) -> Result:
         for row in ("| a | b |", "|---|:-:|", "| - |", "|a|---|", "||", "| -5 | 3 |", "| --verbose | on |", "| :-) | x |",
                     "| a- | -b- |", "| -: x |", "|:--:x|", "| --- x |", "| :---: |", "| ::-- |", "| - - |"):
             cases.append(("TableRow", "en", " " * ind + row + "\n"))
+    for b_ in ["\u00a0", "\u3000", "\u2003", "\x0b", "\x0c", "\x85", "\x1f", "\t", "\u2028", "\u200b", "\ufeff"]:
+        for depth in (1, 2, 6, 7):
+            for name_, role_, kind_ in (("en", "feature", "FeatureLine"), ("en", "scenario", "ScenarioLine"), ("fr", "rule", "RuleLine"),
+                                        ("ja", "examples", "ExamplesLine"), ("en", "background", "BackgroundLine")):
+                cases.append((kind_, name_, "#" * depth + b_ + D[name_][role_][0] + ": t\n"))
+        for name_ in ("en", "fr", "ja"):
+            kw_ = D[name_]["given"][-1]
+            cases.append(("StepLine", name_, "*" + b_ + kw_ + "x\n"))
+            cases.append(("StepLine", name_, b_ + "-" + b_ + b_ + kw_ + "x\n"))
     for indent_ in ["\u00a0\u00a0", "\u3000 ", " \u2003 ", "\t\u00a0", "\u00a0", "\u3000\u3000\u3000\u3000\u3000\u3000", "\x0b\x0c", "\x85 "]:
         cases.append(("TableRow", "en", indent_ + "| a | b |\n"))
     for line in MD_TAG_LINES + ["".join(t) for t in gens.strings_over(["`", "@", "a", " ", "b"], ctx.n(6, 7))]:
@@ -2101,7 +2237,7 @@ PROPS = {
                 rule=GEN_RULE + "both error modes; all line-kind sequences ≤ L for error positions; non-trivial = rejected"),
     "C15": dict(modules=["C15"], run=run_C15, exhaustive=True,
                 rule="all ordered pairs (thorough: triples) of 12 state-perturbing documents through one Parser+TokenMatcher, sampled longer histories, random schedules of 2–3 concurrent parses gated at TokenScanner.read; non-trivial = any"),
-    "C16": dict(modules=["C16", "C16Doc", "C16Doc2", "C16Doc3", "C16Doc3Tie", "C16Doc4"], run=run_C16, rule=GEN_RULE + "× {CRLF, final newline, trailing blanks, indentation, blank line, comment line} at sampled admissible positions; file loading; non-trivial = any"),
+    "C16": dict(modules=["C16", "C16Doc", "C16Doc2", "C16Doc3", "C16Doc3Tie", "C16Doc4", "C16Doc5"], run=run_C16, rule=GEN_RULE + "× {CRLF, final newline, trailing blanks, indentation, blank line, comment line} at sampled admissible positions; file loading; non-trivial = any"),
     "C17": dict(modules=["C17"], run=run_C17, rule="sequences of 1–3 sources × 8 option combinations through one GherkinEvents; non-trivial = at least one envelope"),
     "C18": dict(modules=["C18", "C18Order", "C18Pure"], run=run_C18, translators=["parser_table"], exhaustive=True,
                 rule="all tag/comment/blank runs ≤ L before Examples/Scenario/Rule/unexpected lines as real text, sampled longer arrangements, corpus token listings; non-trivial = any"),
